@@ -169,7 +169,9 @@ func c17Record(i int, raw []byte) Result {
 		nsh := []int{1, 1, 1, 2, 2, 3}[rnd.Intn(6)]
 		rowR := rnd.Intn(4) != 0
 		sstRev := rnd.Intn(2) == 0
-		wb := &ooxmlw.XWorkbook{Extras: rnd.Intn(2) == 0, InfraFirst: rnd.Intn(2) == 0}
+		wb := &ooxmlw.XWorkbook{Extras: rnd.Intn(2) == 0, InfraFirst: rnd.Intn(2) == 0,
+			Sp: ooxmlw.Spelling{Rev: rnd.Intn(2) == 0, RelPrefix: []string{"r", "rel"}[rnd.Intn(2)], Single: rnd.Intn(2) == 0, Foreign: rnd.Intn(2) == 0,
+				OpenClose: rnd.Intn(2) == 0, Gaps: rnd.Intn(2) == 0, Decl: []string{"std", "none", "bom"}[rnd.Intn(3)]}}
 		v := 0
 		var shared []ooxmlw.XSI
 		type pend struct{ sh, row, cell int }
